@@ -16,7 +16,11 @@ import (
 	"context"
 	"fmt"
 	"net/netip"
+	"net/url"
 	"strings"
+	"time"
+
+	"github.com/AdguardTeam/AdGuardDNS/internal/dnsmsg"
 
 	"github.com/AdguardTeam/AdGuardDNS/internal/dnsserver/zzverif/vdns"
 	"github.com/AdguardTeam/AdGuardDNS/internal/dnsserver/zzverif/vrt"
@@ -36,6 +40,54 @@ var c02HQTypes = []uint16{
 type c02HStep struct {
 	Host  string `json:"host"`
 	QType uint16 `json:"qtype"`
+	// Who is the requester (index into c02HRequesters) whose constructor
+	// (blocking mode, filtered-response TTL) the question carries.
+	Who int `json:"who,omitempty"`
+}
+
+// c02HRequesters are requesters with different blocking modes and TTLs; the
+// filters and their result caches are shared by all of them.
+var c02HRequesters = []struct {
+	Name string
+	Mode dnsmsg.BlockingMode
+	TTL  time.Duration
+}{
+	{"null-ip/ttl10", &dnsmsg.BlockingModeNullIP{}, 10 * time.Second},
+	{"nxdomain/ttl3600", &dnsmsg.BlockingModeNXDOMAIN{}, 3600 * time.Second},
+	{"refused/ttl0", &dnsmsg.BlockingModeREFUSED{}, 0},
+	{"custom-ip/ttl60", &dnsmsg.BlockingModeCustomIP{
+		IPv4: []netip.Addr{netip.MustParseAddr(c02CustomV4)},
+		IPv6: []netip.Addr{netip.MustParseAddr(c02CustomV6)},
+	}, 60 * time.Second},
+}
+
+var c02HMsgs []*dnsmsg.Constructor
+
+// c02HConstructor returns the constructor of requester who, built like
+// ratelimitmw builds it: same cloner, own blocking mode and TTL.
+func c02HConstructor(rig *c02ARig, who int) *dnsmsg.Constructor {
+	if c02HMsgs == nil {
+		for _, rq := range c02HRequesters {
+			m, err := dnsmsg.NewConstructor(&dnsmsg.ConstructorConfig{
+				Cloner:       rig.msgs.Cloner(),
+				BlockingMode: rq.Mode,
+				StructuredErrors: &dnsmsg.StructuredDNSErrorsConfig{
+					Contact:       []*url.URL{{Scheme: "mailto", Opaque: "support@dns.example"}},
+					Justification: "Filtering",
+					Organization:  "Verif",
+					Enabled:       true,
+				},
+				FilteredResponseTTL: rq.TTL,
+				EDEEnabled:          true,
+			})
+			if err != nil {
+				vrt.Fatalf("constructor of requester %s: %v", rq.Name, err)
+			}
+			c02HMsgs = append(c02HMsgs, m)
+		}
+	}
+
+	return c02HMsgs[who]
 }
 
 // c02HCase is one history.
@@ -51,10 +103,12 @@ func c02HAsk(rig *c02ARig, f *composite.Filter, cfg c02Cfg, st c02HStep) (kind, 
 	var res internal.Result
 	var err error
 	req := vdns.NewReq(4321, dns.Fqdn(st.Host), st.QType, dns.ClassINET)
+	// With EDNS, so that the EDE of blocked answers shows.
+	req.SetEdns0(1232, false)
 	if p := vrt.Catch(func() {
 		res, err = f.FilterRequest(context.Background(), &internal.Request{
 			DNS:      req,
-			Messages: rig.msgs,
+			Messages: c02HConstructor(rig, st.Who),
 			RemoteIP: netip.MustParseAddr("192.0.2.200"),
 			Host:     st.Host,
 			QType:    st.QType,
@@ -71,8 +125,8 @@ func c02HAsk(rig *c02ARig, f *composite.Filter, cfg c02Cfg, st c02HStep) (kind, 
 	switch res := res.(type) {
 	case nil:
 	case *internal.ResultModifiedResponse:
-		full += fmt.Sprintf(" rule=%q response{%s an=%q ns=%d}", res.Rule, dns.RcodeToString[res.Msg.Rcode],
-			vdns.Section(res.Msg.Answer, true, false), len(res.Msg.Ns))
+		full += fmt.Sprintf(" rule=%q response{%s an=%q ns=%q opt=%q}", res.Rule, dns.RcodeToString[res.Msg.Rcode],
+			vdns.Section(res.Msg.Answer, true, false), vdns.Section(res.Msg.Ns, true, false), vdns.OPTString(res.Msg))
 	case *internal.ResultModifiedRequest:
 		full += fmt.Sprintf(" rule=%q request{%s}", res.Rule, vdns.Question(res.Msg))
 	default:
@@ -93,7 +147,7 @@ func c02HRun(r *vrt.Run, fresh, warm *c02ARig, c c02HCase) (fs []vrt.Finding) {
 		_, _, want, ffs := c02HAsk(fresh, fresh.filterRepl(c.Cfg, c.Repl, true), c.Cfg, st)
 		fs = append(fs, ffs...)
 		r.Trans(2)
-		log = append(log, fmt.Sprintf("%s %s -> %s", dns.Type(st.QType), st.Host, got))
+		log = append(log, fmt.Sprintf("[%s] %s %s -> %s", c02HRequesters[st.Who].Name, dns.Type(st.QType), st.Host, got))
 		ctxt := c02Lazy(func() string {
 			return fmt.Sprintf("config %s (hash-prefix replacement %s), question %d of the history [%s]",
 				c.Cfg, []string{"address", "host"}[c.Repl], i+1, strings.Join(log, "; "))
@@ -121,12 +175,12 @@ func c02HPart(r *vrt.Run, fresh, warm *c02ARig, kinds [nSlots][]int) {
 	// hash-prefix lists cover through h.test; thorough: also other.test).
 	var steps []c02HStep
 	for _, qt := range c02HQTypes {
-		steps = append(steps, c02HStep{c02Dom, qt})
+		steps = append(steps, c02HStep{Host: c02Dom, QType: qt})
 	}
-	steps = append(steps, c02HStep{c02Sub, dns.TypeA}, c02HStep{c02Sub, dns.TypeTXT})
+	steps = append(steps, c02HStep{Host: c02Sub, QType: dns.TypeA}, c02HStep{Host: c02Sub, QType: dns.TypeTXT})
 	if thorough {
-		steps = append(steps, c02HStep{c02Sub, dns.TypeHTTPS}, c02HStep{c02Sub, dns.TypeMX},
-			c02HStep{c02Other, dns.TypeA}, c02HStep{c02Other, dns.TypeTXT})
+		steps = append(steps, c02HStep{Host: c02Sub, QType: dns.TypeHTTPS}, c02HStep{Host: c02Sub, QType: dns.TypeMX},
+			c02HStep{Host: c02Other, QType: dns.TypeA}, c02HStep{Host: c02Other, QType: dns.TypeTXT})
 	}
 	hashStates := []int{fOff, fMatch, fNoMatch}
 	ssStates := []int{0, ssGen | ssYT}
@@ -168,6 +222,44 @@ func c02HPart(r *vrt.Run, fresh, warm *c02ARig, kinds [nSlots][]int) {
 				seqs(len(steps), 2)
 				if depth >= 3 {
 					seqs(10, 3)
+				}
+			})
+		})
+	}, func(c c02HCase) []vrt.Finding { return c02HRun(r, fresh, warm, c) })
+
+	// Requesters that differ: every ordered pair of requesters asking the
+	// same question (A, AAAA, HTTPS for a name the hash-prefix lists cover)
+	// one after the other on the same filters; thorough adds a third question
+	// by every requester.
+	r.Bound("history_requesters", len(c02HRequesters))
+	vrt.Part(r, "history-requesters", func(emit func(c02HCase)) {
+		c02ReqAssignments(kinds, maxReq, func(req [nSlots]int) {
+			vrt.Odometer([]int{3, 3, 3, 2, 2}, func(sf []int) {
+				cfg := c02Cfg{Req: req, SS: ssStates[sf[3]]}
+				on := false
+				for i := 0; i < nHash; i++ {
+					cfg.Hash[i] = hashStates[sf[i]]
+					on = on || cfg.Hash[i] == fMatch
+				}
+				if !on {
+					return
+				}
+				for _, h := range []string{c02Dom, c02Sub} {
+					for _, qt := range []uint16{dns.TypeA, dns.TypeAAAA, dns.TypeHTTPS} {
+						for a := range c02HRequesters {
+							for b := range c02HRequesters {
+								hs := []c02HStep{{h, qt, a}, {h, qt, b}}
+								if !thorough {
+									emit(c02HCase{Cfg: cfg, Repl: sf[4], Steps: hs})
+
+									continue
+								}
+								for c := range c02HRequesters {
+									emit(c02HCase{Cfg: cfg, Repl: sf[4], Steps: append(hs[:2:2], c02HStep{h, qt, c})})
+								}
+							}
+						}
+					}
 				}
 			})
 		})
